@@ -58,7 +58,7 @@ __CPROVER_ensures(g_stop_seen)                 /* returns only after the stop ma
 __CPROVER_ensures(g_lost == 0)                 /* every reclaimer handed over before the marker has run */
 ;
 //@loop GC_keep_reclaim 1
-//@  __CPROVER_assigns(running, index, backoff_us, __t5, __t6, __t7, __t8, g_size, g_uninvoked, g_lost, g_stop_seen, g_lwm, g_cur_epoch, g_cur_index, g_invocations, g_task.lowest_epoch)
+//@  __CPROVER_assigns(running, index, backoff_us, g_size, g_uninvoked, g_lost, g_stop_seen, g_lwm, g_cur_epoch, g_cur_index, g_invocations, g_task.lowest_epoch)
 //@  __CPROVER_loop_invariant(index <= g_size && g_size <= (1UL << 40) && g_uninvoked == g_size - index && g_lost == 0)
 //@  __CPROVER_loop_invariant(running == !g_stop_seen)
 //@  __CPROVER_loop_invariant(batch >= 1 && batch <= 1024)
